@@ -543,3 +543,26 @@ package rtpconn
 //@   -- nothing requested, nothing offered; at most one audio and one video track are offered
 //@   ensures nothing: len(requested) == 0 ==> isnil(result0) && !result1
 //@   ensures size: len(result0) <= 2
+//@
+//@ -- ------------------------------------------------------------------ WHIP clients (C13: lock order)
+//@ func (*WhipClient).Close
+//@   props C13 C12
+//@   requires nonnil: c != nil
+//@   requires unlocked: !held(c.mu)
+//@   -- context assumption (lock order): callers hold no group mutex
+//@   assume group-free: c.group != nil ==> !held(c.group.mu)
+//@   modifies *
+//@   invariant loop 1 free: !held(old(c).mu)
+//@   -- C13 (lock order: the group's mutex before a client's own): the group calls Permissions(), which takes c.mu, with g.mu held
+//@   -- (AddClient, autoLockKick), so the client must never call into the group while holding c.mu (it did: repaired)
+//@   assert at call GetClients order: !held(old(c).mu)
+//@   assert at call DelClient order: !held(old(c).mu)
+//@   ensures unlocked: !held(old(c).mu)
+//@
+//@ func (*WhipClient).Permissions
+//@   safe
+//@   props C13 C12
+//@   requires nonnil: c != nil
+//@   requires unlocked: !held(c.mu)
+//@   modifies held(c.mu)
+//@   ensures unlocked: !held(c.mu)
